@@ -533,6 +533,17 @@ Fixpoint b_run (s : bstate) (os : list bop) : bstate * list bres :=
   end.
 Definition b_exec (s : bstate) (os : list bop) : bstate := fold_left (fun st o => fst (b_step st o)) os s.
 
+(* Since /repo 0d876af every live byte buffer is charged, byte for byte, to the counter that
+   ManualHeap::bytes_allocated() reports and the heap limit is checked against (VM::charge_byte_buffer /
+   release_byte_buffer around alloc, clone, from_string, resize, free).  The model keeps the counter in
+   two parts: [bytes] of the manual heap (8 per live slot) and this derived external part. *)
+Fixpoint btotal (s : bstate) : N :=
+  match s with
+  | [] => 0
+  | Some d :: r => N.of_nat (length d) + btotal r
+  | None :: r => btotal r
+  end.
+
 (* the handles an operation may modify / read *)
 Definition bop_writes (o : bop) : option Z :=
   match o with
@@ -564,6 +575,9 @@ Definition memspec_step (sp : memspec) (o : memop) (hint : memres) : memspec * m
   | OpB o, ResB h => let '(m', r) := bspec_step (snd sp) o h in ((fst sp, m'), ResB r)
   | _, _ => (sp, ResB BBad)
   end.
+
+(* what VM::manual_heap().bytes_allocated() reports for the whole state *)
+Definition mem_charged (st : memstate) : N := bytes (fst st) + btotal (snd st).
 
 Fixpoint mem_run (st : memstate) (os : list memop) : memstate * list memres :=
   match os with
